@@ -42,8 +42,10 @@ def small_network():
     rs = [Reaction(["H", "H"], ["H2"], alpha=1e-17, reaction_type=RT.GAS_TWOBODY, idxfromfile=1),
           Reaction(["H", "CR"], ["H+", "e-"], alpha=1e-17, reaction_type=RT.GAS_COSMICRAY, idxfromfile=2),
           Reaction(["H+", "e-"], ["H"], alpha=1e-12, beta=-0.5, reaction_type=RT.GAS_TWOBODY, idxfromfile=3)]
+    # with a cooling process the system has a temperature equation: NEQUATIONS = NSPECIES + 1, and every equation has to be
+    # advanced over the same interval
     with silenced():
-        return Network(rs)
+        return Network(rs, cooling=["CIC_HI"])
 
 
 def gen_scripts(rng, tier):
